@@ -152,6 +152,8 @@ class TreeGen:
                 continue        # an explicit :instance role is a second way to write the concept
             ra = self.al()
             ro += ra
+            if ra and not self.wf_strict and maybe(rng, 0.06):
+                ro += self.al(1.0)          # a second alignment glued to the role (split at the FIRST '~')
             k = rng.random()
             if k < 0.35 and self.budget > 0 and depth < 12:
                 tgt = self.node(depth + 1)
@@ -474,6 +476,13 @@ def corrupt_markers(rng, g):
             rng.shuffle(g.triples)
         elif k < 0.93:
             g.triples.remove(t)
+        elif k < 0.945:
+            # a second alignment marker of the same kind on one triple (the last one is reported, both are written)
+            from penman import surface as _sf
+            cls = rng.choice([_sf.Alignment, _sf.RoleAlignment])
+            g.epidata.setdefault(t, []).insert(rng.randrange(len(g.epidata.get(t, [])) + 1),
+                                               cls((rng.randint(1, 9),), prefix=rng.choice([None, 'e.'])))
+            g.epidata[t].append(cls((rng.randint(1, 9),), prefix=rng.choice([None, 'e.'])))
         elif k < 0.96:
             # a second node context for an already pushed variable, followed by further markers
             pushed = [(u, e) for u in g.triples for e in g.epidata.get(u, []) if isinstance(e, layout.Push)]
